@@ -45,7 +45,7 @@ var commentReaders = map[string]string{
 }
 
 func runC09(c *core.Ctx) {
-	c.Explanation = "Who-may-decide-on-comments, decided on SSA: (cmt.decide) in parser, linter, interpreter and tester no value produced by a comment-bearing ast renderer (String() methods of node kinds that print Leading/Trailing/Infix comments, computed as a fixpoint, and every dynamic String() on an ast interface) flows — through conversions, concatenation, strings.* helpers and inter-procedurally through string parameters — into a decision: ==/!= comparison, map key, conversion to a named string type such as interpreter.State, slices.Contains / strings.HasPrefix-style predicates; flows into messages are fine; (cmt.readers) comment slots (Meta.Leading/Trailing/Infix, Comment.Value, Parenthesis*Comments) are read outside ast/parser/formatter/tester-syntax/codec only by the enumerated annotation parsers (one reason each), so ordinary comment text can reach no other code; (cmt.layout) layout fields (PreviousEmptyLines, Nest, EndLine, EndPosition, PrefixedLineFeed) and the line and column of a token are never part of a branch condition in linter or interpreter. (cmt.macro) every test for the `#FASTLY` macro in linter and simulator is strings.HasPrefix applied directly to the text of one comment ((*ast.Comment).String()), with a prefix that starts with the literal `#FASTLY `: no trimming, case folding or joining of several comments, so an ordinary comment cannot be taken for the macro and both sides accept the same spelling; (cmt.scan) the scanners of block and line comments consume exactly one character on every path around their loop, so no character is skipped as the possible start of the terminator (a comment ending in `**/` ends there and does not swallow the code behind it). Necessary for inertness of comments for all programs and all decorations at once."
+	c.Explanation = "Who-may-decide-on-comments, decided on SSA: (cmt.decide) in parser, linter, interpreter and tester no value produced by a comment-bearing ast renderer (String() methods of node kinds that print Leading/Trailing/Infix comments, computed as a fixpoint, and every dynamic String() on an ast interface) flows — through conversions, concatenation, strings.* helpers and inter-procedurally through string parameters — into a decision: ==/!= comparison, map key, conversion to a named string type such as interpreter.State, slices.Contains / strings.HasPrefix-style predicates; (cmt.message) nor, in the linter, into the message of a *LintError (the text of a diagnostic is part of the diagnostic); (cmt.readers) comment slots (Meta.Leading/Trailing/Infix, Comment.Value, Parenthesis*Comments) are read outside ast/parser/formatter/tester-syntax/codec only by the enumerated annotation parsers (one reason each), so ordinary comment text can reach no other code; (cmt.layout) layout fields (PreviousEmptyLines, Nest, EndLine, EndPosition, PrefixedLineFeed) and the line and column of a token are never part of a branch condition in linter or interpreter. (cmt.macro) every test for the `#FASTLY` macro in linter and simulator is strings.HasPrefix applied directly to the text of one comment ((*ast.Comment).String()), with a prefix that starts with the literal `#FASTLY `: no trimming, case folding or joining of several comments, so an ordinary comment cannot be taken for the macro and both sides accept the same spelling; (cmt.scan) the scanners of block and line comments consume exactly one character on every path around their loop, so no character is skipped as the possible start of the terminator (a comment ending in `**/` ends there and does not swallow the code behind it). Necessary for inertness of comments for all programs and all decorations at once."
 	c.NotCovered = []string{"the lexer's treatment of whitespace inside tokens (juxtaposition across lines)", "that each annotation parser filters on its marker before using the text (reviewed by hand, listed)", "locations used as map keys or identifiers (coverage ids are built from line and column)"}
 	prog := c.Prog
 	u := newAstUniverse(prog)
